@@ -308,6 +308,20 @@ def _sources(b, oa, sc, within=None):
     return out
 
 
+def _aggregate_defs(defs, l, depth=0):
+    """The definitions of local l, looking through plain moves of whole locals (`r = move tmp`, the hand-over of a spliced
+    helper's result).  Anything else is returned as it is, for the caller to reject."""
+    out = []
+    for d in defs.of(l):
+        if d[2] == 'assign' and d[3]['r'] == 'use' and 'l' in d[3]['a'] and not d[3]['a']['p'] and depth < 4:
+            inner = _aggregate_defs(defs, d[3]['a']['l'], depth + 1)
+            if inner:
+                out.extend(inner)
+                continue
+        out.append(d)
+    return out
+
+
 def _state_component_returned(b, tr, defs, rv, state_args, depth=0):
     """The returned value is a record that carries the moved-in state next to other data (`(state, summary)`), or the state
     component of such a record built on every path (`helper(state).0` with the helper spliced in)."""
@@ -316,6 +330,8 @@ def _state_component_returned(b, tr, defs, rv, state_args, depth=0):
             return False
         o = tr.origin(op)
         return o['o'] == 'arg' and o['l'] in state_args and not o['p']
+    if rv['r'] == 'aggr' and rv.get('agg') == 'adt' and str(rv.get('adt', '')).endswith('result::Result') and rv.get('variant') == 'Err':
+        return True         # a fallible stepping function failing: no state is handed back on this path
     if rv['r'] == 'aggr' and rv.get('agg') in ('tuple', 'adt'):
         st = [op for op in rv['ops'] if is_state(op)]
         # exactly one component is the state parameter; no other component has its type (a saved copy riding along)
@@ -325,8 +341,13 @@ def _state_component_returned(b, tr, defs, rv, state_args, depth=0):
     if rv['r'] == 'use' and 'l' in rv['a'] and depth < 3:
         a = rv['a']
         flds = [e for e in a['p'] if isinstance(e, dict) and 'f' in e]
-        if len(flds) == 1 and len(a['p']) == 1:
-            ds = [d for d in defs.of(a['l'])]
+        dcs = [e for e in a['p'] if isinstance(e, dict) and 'downcast' in e]
+        if len(flds) == 1 and len(a['p']) == 1 + len(dcs) and len(dcs) <= 1:
+            ds = _aggregate_defs(defs, a['l'])
+            # (`match helper(state) { Ok(s) => s, Err(e) => panic!(..) }`: only the definitions that build the read variant count)
+            if dcs:
+                ds = [d for d in ds if not (d[2] == 'assign' and d[3]['r'] == 'aggr' and d[3].get('agg') == 'adt' and
+                                            d[3].get('variant') != dcs[0]['downcast'])]
             if ds and all(d[2] == 'assign' and d[3]['r'] == 'aggr' and d[3].get('agg') in ('tuple', 'adt') and
                           flds[0]['f'] < len(d[3]['ops']) and is_state(d[3]['ops'][flds[0]['f']]) for d in ds):
                 return True
